@@ -6,7 +6,7 @@ import ast
 
 from ..astutil import CondUnknown, eval_cond, inside
 from ..cfg import CFG, cond_strings
-from ..core import AnalysisError, const_value, walk_own
+from ..core import callee_is, AnalysisError, const_value, walk_own
 from ..defuse import DefUse, Terms, show, walk_term
 from ..defuse import key as tkey
 from ..tutil import no_uids
@@ -121,7 +121,7 @@ def _stream_direction(ctx):
               f"the sorted frame is {show(wt, 160)}", node=writes[0])
     g = prog.func("mokapot.confidence.create_sorted_file_iterator")
     ms = [n for n in ast.walk(g.node) if isinstance(n, ast.Call)
-          and isinstance(n.func, ast.Name) and n.func.id == "merge_sort"]
+          and callee_is(prog, g, n, "mokapot.utils.merge_sort")]
     ctx.require(len(ms) == 1, f"{g.qual}: merge_sort call not found")
     col = {k.arg: k.value for k in ms[0].keywords}.get("score_column") or (
         ms[0].args[1] if len(ms[0].args) > 1 else None)
@@ -131,7 +131,7 @@ def _stream_direction(ctx):
               node=ms[0])
     r = prog.func("mokapot.brew_rollup.do_rollup")
     mr = [n for n in ast.walk(r.node) if isinstance(n, ast.Call)
-          and ast.unparse(n.func) == "MergedTabularDataReader"]
+          and callee_is(prog, r, n, "MergedTabularDataReader")]
     ctx.require(len(mr) == 1, f"{r.qual}: merged reader not found")
     kws = {k.arg: k.value for k in mr[0].keywords}
     desc_default = const_value(prog.func(
@@ -1106,7 +1106,7 @@ def _target_decoy_routing(ctx):
     # is_decoy: False for target files, True for decoy files - read off the
     # readers handed to the merging reader
     mr = [n for n in ast.walk(r.node) if isinstance(n, ast.Call)
-          and ast.unparse(n.func) == "MergedTabularDataReader" and n.args]
+          and callee_is(prog, r, n, "MergedTabularDataReader") and n.args]
     ctx.require(len(mr) == 1, f"{r.qual}: merging reader not found")
     flags = []
     for kind, part in concat_parts(T3.of(mr[0].args[0])):
@@ -1333,6 +1333,34 @@ def _has_read(t):
     return any(x[0] == "mcall" and x[2] == "read" for x in walk_term(t))
 
 
+def _chunk_sizes(prog, f):
+    """[(kind, size term, node)] for every chunked read and every
+    create_chunks in ``f``, sizes as terms with temporaries and import
+    aliases resolved"""
+    from ..proto import Calls
+    from ..tutil import bound_margs
+    out = []
+    try:
+        c = Calls(prog, f)
+    except Exception:  # noqa: BLE001
+        return out
+    for t, n in c.items:
+        if t[0] == "mcall" and t[2] in ("get_chunked_data_iterator",
+                                        "read_data", "iter_batches"):
+            b = bound_margs(prog, t) or dict(t[4])
+            cs = b.get("chunk_size") or b.get("batch_size")
+            if cs is None and t[3] and t[2] != "read_data":
+                cs = t[3][0]
+            if cs is not None:
+                out.append(("read", cs, n))
+        elif t[0] == "call" and t[1] == "mokapot.utils.create_chunks":
+            b = bound_args(prog, t) or {}
+            cs = b.get("chunk_size")
+            if cs is not None:
+                out.append(("chunks", cs, n))
+    return out
+
+
 def chunk_size_agreement(ctx, rule):
     """Within one function, every chunked read and every create_chunks that
     can be zipped together must use the same chunk-size expression."""
@@ -1342,35 +1370,23 @@ def chunk_size_agreement(ctx, rule):
         f = prog.funcs[q]
         if isinstance(f.node, ast.Lambda) or not q.startswith("mokapot."):
             continue
-        sizes = []
-        for n in ast.walk(f.node):
-            if not isinstance(n, ast.Call):
-                continue
-            fn = ast.unparse(n.func)
-            kws = {k.arg: k.value for k in n.keywords}
-            if fn.endswith("get_chunked_data_iterator") or fn.endswith(
-                    ".read_data") or fn.endswith("iter_batches"):
-                cs = kws.get("chunk_size") or kws.get("batch_size")
-                if cs is None and n.args and not fn.endswith("read_data"):
-                    cs = n.args[0]
-                if cs is not None:
-                    sizes.append(("read", ast.unparse(cs), n))
-            elif fn in ("create_chunks", "utils.create_chunks"):
-                cs = kws.get("chunk_size") or (
-                    n.args[1] if len(n.args) > 1 else None)
-                if cs is not None:
-                    sizes.append(("chunks", ast.unparse(cs), n))
+        if not any(isinstance(n, ast.Attribute) and n.attr in (
+                "get_chunked_data_iterator", "read_data", "iter_batches")
+                or isinstance(n, ast.Name) and n.id == "create_chunks"
+                or isinstance(n, ast.Attribute) and n.attr == "create_chunks"
+                for n in ast.walk(f.node)):
+            continue
+        sizes = _chunk_sizes(prog, f)
         kinds = {k for k, _s, _n in sizes}
         if kinds != {"read", "chunks"}:
             # nested helper (write_to_disk.chunked) uses the enclosing scope
-            nested = [s for nf in f.nested.values()
-                      for s in _nested_sizes(nf)]
-            sizes += nested
+            for nf in f.nested.values():
+                sizes += _chunk_sizes(prog, nf)
             kinds = {k for k, _s, _n in sizes}
             if kinds != {"read", "chunks"}:
                 continue
         n_sites += 1
-        vals = {s for _k, s, _n in sizes}
+        vals = {tkey(no_uids(s_)) for _k, s_, _n in sizes}
         ctx.check(len(vals) == 1, rule, f,
                   "file chunks and the score/statistic slices zipped with "
                   "them use one chunk size",
@@ -1378,19 +1394,6 @@ def chunk_size_agreement(ctx, rule):
                   "and their scores/q-values drift apart after the first "
                   "chunk", node=sizes[0][2], detail=str(sorted(vals)))
     ctx.floor(rule, n_sites, 3)
-
-
-def _nested_sizes(nf):
-    out = []
-    for n in ast.walk(nf.node):
-        if isinstance(n, ast.Call) and ast.unparse(n.func) in (
-                "create_chunks", "utils.create_chunks"):
-            kws = {k.arg: k.value for k in n.keywords}
-            cs = kws.get("chunk_size") or (n.args[1] if len(n.args) > 1
-                                           else None)
-            if cs is not None:
-                out.append(("chunks", ast.unparse(cs), n))
-    return out
 
 
 # ------------------------------------------------------------------ f
